@@ -26,6 +26,28 @@ def _registry_run(ctx, vdr, d, inp, tag):
     return recs, nl, st, races, racetxt
 
 
+def registry_proofs(ctx, d):
+    """Unbounded arguments for the locking discipline (thorough tier): a TLAPS proof of mutual exclusion for any
+    number of processes (RegistryProof.tla) and the inductive invariant discharged by Apalache (RegistryInd.tla).
+    A failure here is a failure of the specification work (exit 2), never a verdict on the code."""
+    pd = os.path.join(d, "proofs")
+    vlib.copy_spec(pd)
+    info = {}
+    p = vlib.run(["tlapm", "--threads", "8", "RegistryProof.tla"], cwd=pd, timeout=600, check=False)
+    m = re.search(r"All (\d+) obligations? proved", p.stdout or "")
+    if not m:
+        raise Infra("TLAPS did not prove RegistryProof.tla:\n" + (p.stdout or "")[-2000:])
+    info["tlaps_obligations_proved"] = int(m.group(1))
+    for init, length in (("Init", 0), ("IndInit", 1)):
+        p = vlib.run(["apalache-mc", "check", "--cinit=CInit", "--init=" + init, "--inv=IndInv", "--length=%d" % length,
+                      "RegistryInd.tla"], cwd=pd, timeout=600, check=False)
+        if "EXITCODE: OK" not in (p.stdout or ""):
+            raise Infra("Apalache did not establish the inductive invariant (%s):\n%s" % (init, (p.stdout or "")[-2000:]))
+    info["apalache_inductive_invariant"] = "Init => IndInv and IndInv /\\ Next => IndInv' established for 4 processes"
+    shutil.rmtree(pd, ignore_errors=True)
+    return info
+
+
 def registry_phase(ctx):
     """C17 concurrency: forced schedules from MCRegistry, free-running stress, mutual-exclusion probe;
     everything under the race detector; validated by RegistryTrace.tla."""
@@ -59,6 +81,10 @@ def registry_phase(ctx):
             f.write(json.dumps({"stress": {"g": 8 if tier == "quick" else 16, "n": 200 if tier == "quick" else 500, "seed": seed * 100 + i}}) + "\n")
         f.write(json.dumps({"probe": 1}) + "\n")
     log("registry: %d forced schedules from the model, %d stress runs, 1 probe matrix" % (nforced, nstress))
+    if tier != "quick":
+        info = registry_proofs(ctx, d)
+        ctx["mc_info"].append({"module": "RegistryProof / RegistryInd", "constants": {}, **info})
+        log("registry proofs: %s" % info)
     recs, nl, st, races, racetxt = _registry_run(ctx, vdr, d, inp, "a")
     ctx["nscen"] += st.get("scenarios", 0)
     ctx["nops"] += st.get("ops", 0)
